@@ -25,12 +25,14 @@ def acts_text(acts):
 
 
 def mkcase(cid, kind, source, prefix=(), threads=(), scripts=None, poller="epoll", pts=1, steps=4000, tag="",
-           n=0, calls=0, hashes=()):
+           n=0, calls=0, hashes=(), later=()):
     hdr = "kind=%s poller=%s pts=%d steps=%d" % (kind, poller, pts, steps)
     if kind == "pool":
         hdr += " n=%d calls=%d" % (n, calls)
     hdr += " sched=%s" % source
     ops = ["P " + acts_text(list(prefix))]
+    for seg in later:
+        ops.append("L " + acts_text(list(seg)))
     for t in threads:
         ops.append("T " + acts_text(list(t)))
     for k in sorted((scripts or {}).keys()):
@@ -76,6 +78,16 @@ def parse_case(case):
         elif w[0] == "H":
             hashes = [int(x) for x in w[1:]]
     return prefix, threads, scripts, hashes
+
+
+def later_of(case):
+    """the segments between successive calls of loop() (L lines)"""
+    res = []
+    for line in case.ops:
+        w = line.split()
+        if w and w[0] == "L":
+            res.append([a.strip() for a in " ".join(w[1:]).split(";") if a.strip() and a.strip() != "-"])
+    return res
 
 
 class LoopRun(schedlib.Run):
@@ -219,12 +231,19 @@ def oracle_tasks(case, run, loop_thread=0):
         q = int(run.stuck.get("q", "0"))
         looping = run.stuck.get("loop") == "1"
         if q > 0 and looping:
-            # classify: is it the known pre-loop case?  (a queueInLoop issued by the loop thread before loop())
+            # classify: is it the pre-loop case (F-2)?  every unexecuted task was queued by the loop thread
+            # itself while it was not inside loop() (before the first call or between two calls)
             pre = False
-            enter_pos = next((pos for pos, ti, w in evs if w[0] == "enter"), None)
+            inside, outside_pos = False, set()
+            for pos, ti, w in evs:
+                if ti == loop_thread and w[0] == "enter":
+                    inside = True
+                elif ti == loop_thread and w[0] == "loop-returned":
+                    inside = False
+                elif ti == loop_thread and w[0] == "call" and not inside:
+                    outside_pos.add(pos)
             unexec = [t for t in calls if nexec.get(t, 0) < len(calls[t])]
-            if enter_pos is not None and unexec and all(
-                    all(p < enter_pos and ti == loop_thread for (p, ti, k) in calls[t]) for t in unexec):
+            if unexec and all(all(p in outside_pos and ti == loop_thread for (p, ti, k) in calls[t]) for t in unexec):
                 pre = True
             msg = ("STALL: every thread is blocked, the loop sits in poll (only the 10 s time-out can end it) with %d "
                    "task(s) in the queue: %s" % (q, sorted(unexec)))
